@@ -62,12 +62,16 @@ where
             )
             .await?; // cancel safe
 
+            // Only the first transfer of a multi-transfer delivery carries the delivery-tag,
+            // message-format and settled fields. They must be cleared for every later
+            // transfer, including the last one when there is no transfer in the middle.
+            transfer.delivery_tag = None;
+            transfer.message_format = None;
+            transfer.settled = None;
+
             // Send the transfers in the middle
             while payload.len() > self.max_message_size as usize {
                 let partial = payload.split_to(self.max_message_size as usize);
-                transfer.delivery_tag = None;
-                transfer.message_format = None;
-                transfer.settled = None;
                 send_transfer(
                     writer,
                     input_handle.clone(),
